@@ -64,7 +64,8 @@ ExplainsCodes(cfg, c, r) ==
     /\ r.st = "ok"
     /\ CASE c.op = "codes"     -> CodesOk(A, cfg.q, FwdGrams(c.a.t, cfg.q), r)
          [] c.op = "rev_codes" -> CodesOk(A, cfg.q, RevGrams(c.a.t, cfg.q), r)
-         [] c.op = "serde"     -> TRUE
+         [] c.op \in {"serde", "rt_new"} -> TRUE
+         [] c.op = "width"     -> r.v = Bits(Cardinality(A))          \* get_width: bits per rank
          [] c.op = "codes_iter"     -> Bits(Cardinality(A)) * cfg.q <= 30 /\ IterOk(A, cfg.q, c.a.t, r)
          [] c.op = "codes_variants" -> Bits(Cardinality(A)) * cfg.q <= 30 /\ VariantsOk(A, cfg.q, c.a.t, r)
          [] OTHER -> FALSE
